@@ -133,3 +133,22 @@ def drive(get_key, chunks, encoding, keynames):
                 raise Incomplete(b"".join(cur))
             keys.append(e)
     return keys
+
+
+def drive_partial(get_key, data, encoding, keynames):
+    """One read as Input takes it since it keeps the start of a keypress whose other bytes have
+    not arrived: -> (keys, leftover); leftover is to be put in front of the next read."""
+    keys = []
+    buf = [data[i:i + 1] for i in range(len(data))]
+    while buf:
+        cur = []
+        e = None
+        while buf:
+            cur.append(buf.pop(0))
+            e = get_key(cur, encoding, keynames=keynames, full=len(buf) == 0)
+            if e is not None:
+                break
+        if e is None:
+            return keys, b"".join(cur)
+        keys.append(e)
+    return keys, b""
